@@ -10,6 +10,7 @@ import (
 	"hash/fnv"
 	"net"
 	"net/http"
+	"net/url"
 	"sort"
 	"sync"
 	"time"
@@ -422,8 +423,8 @@ func (p *PeerPool) forwardRelease(ctx context.Context, owner, subscriberID strin
 		return fmt.Errorf("no address for peer %s", owner)
 	}
 
-	url := fmt.Sprintf("http://%s/pool/release/%s", peerAddr, subscriberID)
-	httpReq, err := http.NewRequestWithContext(ctx, "DELETE", url, nil)
+	reqURL := fmt.Sprintf("http://%s/pool/release/%s", peerAddr, url.PathEscape(subscriberID))
+	httpReq, err := http.NewRequestWithContext(ctx, "DELETE", reqURL, nil)
 	if err != nil {
 		return fmt.Errorf("create request: %w", err)
 	}
